@@ -178,6 +178,8 @@ def _define_components(region_data):
     if comps:
         start_component = np.max(comps) + 1
         components[none_idx] = np.arange(len(none_idx)) + start_component
+        # object array (because of the None values) -> integer column
+        components = components.astype(int)
     else:
         # all components are set to None - do not write a COMPONENT
         # column
